@@ -60,6 +60,8 @@ type Device struct {
 	RpmRead        ReadMode
 	Raw            string // RegRaw content
 	RawRead        ReadMode
+	// GarbageText is what a ReadGarbage read returns (default "garbage\n"); whitespace-only content is a garbage shape too
+	GarbageText string
 	// Log of writes: "pwm=<v>" / "mode=<v>" (":refused" suffix for refused writes)
 	Log []string
 	// OnWrite, if set, is called for every write (while the hook lock is held: it must not call
@@ -129,6 +131,9 @@ func regRead(path string, b binding) ([]byte, error) {
 	case ReadOk:
 		return []byte(v + "\n"), nil
 	case ReadGarbage:
+		if d.GarbageText != "" {
+			return []byte(d.GarbageText), nil
+		}
 		return []byte("garbage\n"), nil
 	case ReadEmpty:
 		return []byte{}, nil
